@@ -68,11 +68,16 @@ def model_line(case):
                       esc(";".join("%d %d" % cv for cv in conc)), esc(" ".join(map(str, ifv))), esc(";".join(ops))])
 
 
+def impl_style(i, j, a, b, c, d):
+    """rendering of an impl block: 0 plain, 1 m2 / m3 through void / observer self-calls, 2 m3 through a value-returning self-call"""
+    return (a + b + c + d + i + j) % 3
+
+
 def render(case):
     impls, conc, ifv, ops, ni, nt = case
     L = []
     for i in range(ni):
-        L.append("interface I%d { int m0_%d(); void m1_%d(int k); int m2_%d(); int m3_%d(int k); }" % (i, i, i, i, i))
+        L.append("interface I%d { int m0_%d(); void m1_%d(int k); int m2_%d(); int m3_%d(int k); int m4_%d(int k); }" % (i, i, i, i, i, i))
     for j in range(nt):
         L.append("struct T%d { int v; };" % j)
     for (i, j), (a, b, c, d) in sorted(impls.items()):
@@ -80,9 +85,14 @@ def render(case):
         L.append("    static int s = 0;")
         L.append("    int m0_%d() { return self.v * %d + %d; }" % (i, a, b))
         L.append("    void m1_%d(int k) { self.v = self.v + k * %d; }" % (i, c))
-        if (a + b + c + d + i + j) % 2 == 0:
+        L.append("    int m4_%d(int k) { self.v = self.v + k * %d; return self.v * %d + %d; }" % (i, c, a, b))
+        if impl_style(i, j, a, b, c, d) == 0:
             L.append("    int m2_%d() { s = s + %d; return s; }" % (i, d))
             L.append("    int m3_%d(int k) { self.v = self.v + k * %d; return self.v * %d + %d; }" % (i, c, a, b))
+        elif impl_style(i, j, a, b, c, d) == 2:
+            # a VALUE-RETURNING method of the receiver called on self: its member writes must stay in the receiver
+            L.append("    int m2_%d() { s = s + %d; return s; }" % (i, d))
+            L.append("    int m3_%d(int k) { int t = self.m4_%d(k); return self.m0_%d() + t - t; }" % (i, i, i))
         else:
             # the same meaning, written with calls of the receiver's own methods (self.m()) before the impl static is used
             L.append("    int m2_%d() { int t = self.m0_%d(); s = s + %d; self.m1_%d(0); return s + t - self.m0_%d(); }" % (i, i, d, i, i))
@@ -127,6 +137,7 @@ def render(case):
 
 
 PRIM_FID = "primitive_receiver_statics_and_self"
+SELF_FID = "value_returning_self_call_loses_writes"
 
 
 def primitive_cases():
@@ -144,8 +155,8 @@ def primitive_cases():
     add("var", hdr, "    int x = 5;\n    Counter c = x;\n    println(c.peek());\n    println(c.bump());\n    println(c.bump());\n", [5, 1, 2])
     add("literal", hdr, "    Counter c = 5;\n    println(c.peek());\n    println(c.add(2));\n    println(c.add(0));\n", [5, 7, 12])
     add("two-vars-share", hdr, "    Counter c = 5;\n    Counter d = 7;\n    println(c.bump());\n    println(d.bump());\n    println(c.add(1));\n    println(d.peek());\n", [1, 2, 8, 7])
-    add("param", hdr + "int use(Counter p) { return p.bump() * 10 + p.peek(); }\n",
-        "    Counter c = 4;\n    println(use(c));\n    println(use(c));\n    println(c.bump());\n", [14, 24, 3])
+    add("param", hdr + "int feed(Counter p) { return p.bump() * 10 + p.peek(); }\n",
+        "    Counter c = 4;\n    println(feed(c));\n    println(feed(c));\n    println(c.bump());\n", [14, 24, 3])
     add("struct-and-int", hdr + st, "    Box b;\n    b.v = 3;\n    Counter c = 5;\n    Counter d = b;\n    println(c.bump());\n    println(d.bump());\n"
         "    println(c.add(1));\n    println(d.add(1));\n    println(c.peek());\n    println(d.peek());\n", [1, 101, 7, 105, 5, 3])
     return cases
@@ -172,6 +183,8 @@ def main(a):
     nontrivial = set()
     samples = []
     nrej = 0
+    listed0 = {f["id"]: f for f in common.load_findings(PID)}
+    selfknown = 0
     for k, (c, m, o) in enumerate(zip(cases, mo, outs)):
         vals, st = m.rsplit("|", 1)
         exp_lines = [x for x in vals.split(" ") if x]
@@ -185,6 +198,10 @@ def main(a):
         if k % 41 == 0 and len(samples) < 5:
             samples.append({"ops": c[3][:10], "impls": len(c[0]), "expected": exp[-80:]})
         if o[0] != exp or o[1] != cls:
+            if SELF_FID in listed0 and o[1] == "ok" and any(impl_style(i, j, *t) == 2 for (i, j), t in c[0].items()) \
+                    and any(x.startswith("B ") for x in c[3]):
+                selfknown += 1
+                continue
             if rep >= 3:
                 continue
             rep += 1
@@ -192,6 +209,8 @@ def main(a):
                         {"case": [sorted([list(k2), list(v2)] for k2, v2 in c[0].items()), c[1], c[2], c[3], c[4], c[5]],
                          "program": progs[k], "expected_stdout": exp, "expected_class": cls, "impl_stdout": o[0],
                          "impl_exit_class": o[1], "impl_stderr": o[2]})
+    if selfknown:
+        v.known_finding(listed0[SELF_FID]["what"] + " [%d generated programs]" % selfknown)
     # receivers of a primitive type
     findings = common.load_findings(PID)
     listed = {f["id"]: f for f in findings}
